@@ -138,3 +138,41 @@ Example C05_empty_precedence_bites :
   wfb ex2 = true /\ no_emptyb ex2 = false /\
   fprio (resolve ex2) = -5 /\ zmax_list (map fprio (derivs ex2)) = 0.
 Proof. vm_compute. repeat split; reflexivity. Qed.
+
+(* ---- C05 on the forest as lark builds it: a label-keyed graph (Forest/ExplicitBuild.v, GraphResolve.v) ----
+   For an ACYCLIC graph forest ([rank] decreases along every edge) in which every referenced symbol node has a
+   packed child, annotated with priorities [pr]/[prf] that satisfy ForestSumVisitor's equations, emptiness being
+   uniform inside every node: the resolve walk with the children ordered by the regenerated PackedNode.sort_key
+   returns a stored unfolding whose total priority is the node priority of the root and is maximal among all
+   unfoldings the forest stores. *)
+From LV Require Import Cfg.Grammar Forest.ExplicitBuild Forest.GraphResolve Forest.GraphResolve_proofs
+  Forest.GraphPrio_proofs.
+
+Theorem C05_optimal_graph (tok : Type) (teqb : tok -> tok -> bool)
+  (teqb_spec : forall a b, teqb a b = true <-> a = b)
+  (fams : list (nlabel tok * family tok)) (rprio rorder : rule -> Z) (tprio : nat -> tok -> Z)
+  (pr : nlabel tok -> Z) (prf : nlabel tok -> family tok -> Z)
+  (pr_tok : forall t x i j, pr (NTok tok t x i j) = tprio t x)
+  (prf_eq : forall lbl r l rt, in_forest tok fams lbl (r, l, rt) ->
+     prf lbl (r, l, rt) = (if is_sym tok lbl then rprio r else 0) + pro tok pr rt + pro tok pr l)
+  (pr_max : forall lbl, is_tok tok lbl = false -> fams_of tok teqb fams lbl <> [] ->
+     is_max (pr lbl) (map (prf lbl) (fams_of tok teqb fams lbl)))
+  (tok_no_family : forall t x i j f, ~ in_forest tok fams (NTok tok t x i j) f)
+  (rank : nlabel tok -> nat)
+  (ranked : forall lbl r l rt, in_forest tok fams lbl (r, l, rt) ->
+     orank tok rank l (rank lbl) /\ orank tok rank rt (rank lbl))
+  (closed : forall lbl r l rt, in_forest tok fams lbl (r, l, rt) ->
+     oclosed tok teqb fams l /\ oclosed tok teqb fams rt)
+  (uniform : forall lbl f1 f2, in_forest tok fams lbl f1 -> in_forest tok fams lbl f2 ->
+     fam_empty tok f1 = fam_empty tok f2) a i j :
+  fams_of tok teqb fams (NSym tok a i j) <> [] ->
+  exists d, graph_resolve tok teqb fams (order_key tok rorder prf) (NSym tok a i j) = Some d /\
+            den tok (in_forest tok fams) (NSym tok a i j) [d] /\
+            gprio tok rprio tprio d = pr (NSym tok a i j) /\
+            forall d', den tok (in_forest tok fams) (NSym tok a i j) [d'] ->
+                       gprio tok rprio tprio d' <= gprio tok rprio tprio d.
+Proof.
+  exact (graph_resolve_optimal tok teqb teqb_spec fams rprio rorder tprio pr prf pr_tok prf_eq pr_max
+           tok_no_family rank ranked closed uniform a i j).
+Qed.
+Print Assumptions C05_optimal_graph.
